@@ -9,7 +9,6 @@ use serde::{Deserialize, Serialize};
 use serde_json::json;
 
 use crate::checks::c03;
-use crate::ensure;
 use crate::fe::{fe_any, pick, Fe, F};
 use crate::prog::{self, Op, Pi, Program};
 use crate::refprover::{self, Deviation};
@@ -62,11 +61,16 @@ fn case_strategy(_t: Tier) -> BoxedStrategy<Case> {
     ];
     (
         proptest::collection::vec(op, 2..14),
-        proptest::collection::vec(any::<u8>(), 0..10),
+        // labels: short, around the 32-byte mark, long; bytes incl. 0x00
+        prop_oneof![
+            3 => proptest::collection::vec(any::<u8>(), 0..10),
+            2 => proptest::collection::vec(prop_oneof![1 => Just(0u8), 3 => any::<u8>()], 28..40),
+            1 => proptest::collection::vec(any::<u8>(), 40..70),
+        ],
         any::<u64>(),
         proptest::collection::vec((any::<u16>(), 0u8..10, fe_any()), 6),
         proptest::collection::vec(cm, 4),
-        proptest::collection::vec((any::<u16>(), 0u8..4), 3),
+        proptest::collection::vec((any::<u16>(), 0u8..7), 4),
     )
         .prop_map(|(ops, label, seed, pi_muts, circ_muts, label_muts)| Case {
             ops,
@@ -211,13 +215,12 @@ fn check(ctx: &Ctx, c: &Case) -> PResult {
             }
             Err(e) => {
                 if p2.len() != len {
-                    ensure!(
-                        matches!(e, Error::InconsistentPublicInputsLen { .. }),
-                        "wrong-error-for-length",
-                        "length {} vs {}: {e:?}",
-                        p2.len(),
-                        len
-                    );
+                    // the property demands an error; the kind is recorded
+                    ctx.label(if matches!(e, Error::InconsistentPublicInputsLen { .. }) {
+                        "length change: InconsistentPublicInputsLen"
+                    } else {
+                        "length change: other error"
+                    });
                 }
             }
         }
@@ -260,7 +263,7 @@ fn check(ctx: &Ctx, c: &Case) -> PResult {
     // labels
     for (pos, kind) in &c.label_muts {
         let mut l2 = c.label.clone();
-        match kind % 4 {
+        match kind % 7 {
             0 if !l2.is_empty() => {
                 let i = pick(*pos, l2.len());
                 l2[i] ^= 1 << (pos % 8);
@@ -269,6 +272,14 @@ fn check(ctx: &Ctx, c: &Case) -> PResult {
             2 if !l2.is_empty() => {
                 l2.pop();
             }
+            // length-only differences: trailing zero bytes
+            3 => l2.push(0),
+            4 => l2.extend_from_slice(&[0u8; 3][..1 + (*pos as usize % 3)]),
+            // the last byte only
+            5 if !l2.is_empty() => {
+                let i = l2.len() - 1;
+                l2[i] = l2[i].wrapping_add(1 + (*pos & 0x7f) as u8);
+            }
             _ => {
                 if l2.is_empty() {
                     l2.push(0)
@@ -276,6 +287,10 @@ fn check(ctx: &Ctx, c: &Case) -> PResult {
                     l2.clear()
                 }
             }
+        }
+        if l2 == c.label {
+            ctx.excluded("label mutation left the label unchanged");
+            continue;
         }
         let (_, other, _) = compile(&c.ops, &l2, 32)?;
         c03::compare(ctx, "same circuit, other label", &other.verifier, &other.rv, &bytes, &pi, v3, Some(false))?;
